@@ -157,6 +157,18 @@ func pausedCommit(ctl *hookctl.Ctl, idx int, point string, ntab int, withNewTabl
 		}
 		time.Sleep(300 * time.Microsecond)
 	}
+	// a second writer asks for the first table only and queues behind the paused one: once it is granted, what it sees through its
+	// write transaction (its own table and, as a snapshot, the others) is all of the first writer's transaction or nothing of it
+	hB := fmt.Sprintf("PB%d", idx)
+	blocked := make(chan []int, 1)
+	go func() {
+		w2 := db.NewHandle(hB).WriteTxn(tabs[0])
+		blocked <- tagged(w2, tabs, tag)
+		w2.Abort()
+	}()
+	for i := 0; i < 2000 && ctl.At(hB) != "wtxn.beforeLock" && len(blocked) == 0; i++ {
+		time.Sleep(50 * time.Microsecond)
+	}
 	// snapshot from a second goroutine
 	type obs struct {
 		cnt   []int
@@ -188,6 +200,16 @@ func pausedCommit(ctl *hookctl.Ctl, idx int, point string, ntab int, withNewTabl
 	finish()
 	if !waitCh(doneW) {
 		return "stuck/" + point, "writer did not finish after resume", true
+	}
+	select {
+	case cnt := <-blocked:
+		for _, c := range cnt {
+			if c != cnt[0] {
+				return "partial-visibility/blocked-writer", fmt.Sprintf("a writer that queued for table 0 while the first one was at %s sees %v tagged rows per table through its write transaction: part of that transaction", point, cnt), true
+			}
+		}
+	case <-time.After(long):
+		return "stuck/blocked-writer/" + point, "the queued writer was never granted after the first one finished", true
 	}
 	if withNewTable {
 		select {
